@@ -100,7 +100,7 @@ def describe(tier):
             "indexes": list(INDEXES),
             "gene_log2_levels": list(GENE_LEVELS),
             "segment_log2_levels": list(SEG_LEVELS),
-            "weights": [1.0, 0.5],
+            "weights": [1.0, 0.5, 0.0],
             "layouts": ["gapped bins", "abutting bins"],
         },
         "assumptions": [
@@ -116,7 +116,7 @@ def describe(tier):
             "sex options: on tables without chrX the result must not depend on them; with chrX and an explicit is_sample_female the chrX log2 (bins and segments) "
             "shift by +1 (male sample, diploid-X reference) or -1 (female, haploid-X reference) as shift_xx documents; inferring the sex belongs to C15",
             "Background is the package's alias of Antitarget; gene names carry no commas (a comma name would make a bin belong to two genes)",
-            "weights are 1 or 0.5 (an all-zero-weight gene has no weighted mean)",
+            "weights are 1, 0.5 or 0 (every fifth bin); a gene whose bins all have weight 0 has no weighted mean: the plain mean is expected there, as for a table without weights",
             "row order of genemetrics / squash_genes / breaks output is not claimed; by_gene order is",
         ],
     }
@@ -196,7 +196,7 @@ class Table:
                 level = GENE_LEVELS[(gene_order.index(g) + rot) % 3] if g in gene_order else NONGENE_LEVEL
                 log2 = level + 0.01 * (i + 1)
                 depth = 10.0 + 3.0 * k
-                weight = 1.0 if k % 2 == 0 else 0.5
+                weight = (1.0, 0.5, 1.0, 0.0, 0.5)[k % 5]  # a zero-weight bin every fifth bin
                 if k in self.low:
                     log2, depth = LOW, 0.0
                 name = rename.get(g, g) if rename else g
